@@ -107,6 +107,18 @@ MISSED = {
  "C18-m11": "zero_fill was given lists; added one-shot iterables with an absent outcome in the middle",
  "C18-m12": "accumulate was given histograms; added pools, dicts and iterators of pairs",
  "C19-m12": "rejections were observed on immutable objects only; added Roll(...) construction from a lazy iterable that hits a rejected call after yielding outcomes (they must stay unassociated and usable)",
+ "C01-m14": "powers were taken of mostly one-signed histograms; added even / odd / zero exponents (int and Fraction) on histograms containing an outcome and its negative",
+ "C03-m13": "no mixed pool had a die whose range contains another's; added the 'nested' pool shape (like wide dice + narrow dice / constants strictly inside their range) and corpus entries",
+ "C04-m13": "the H(n) shorthand was never used inside pools or repetitions; added negative and positive shorthands as pool arguments and as repeated dice, with h.total checked",
+ "C05-m13": "(same defect class as C13-m10) a folding relabelling of an already reduced source: the result must reduce / compare / hash like the distribution built directly",
+ "C10-m14": "generators were created one at a time; added equally seeded NumPy generators created up front and used alternately with the default generator in between",
+ "C12-m14": "selections rarely left a gap between selected positions on three or more outcomes; added (0,-1), (0,2), every-second-position selectors and corpus entries",
+ "C13-m14": "appearances were asked once per object; added the same object in a larger pool first and a smaller one afterwards",
+ "C14-m13": "fractional limits exactly equal to the probability of a chain of re-rolls existed only for C08; C07 and C14 now run them for d5 / d10 / d11 / d13 / d20 at depths 1-3 (a double-precision path probability rounds the wrong way there)",
+ "C15-m14": "n @ r was never applied to rollers in the population; added n @ r and (n @ r) @ m for n, m in 0..3, the operand being a repetition itself",
+ "C16-m13": "outcomes stayed near the origin; added the same shapes shifted by millions (non-integral means of magnitude 2**21 and above) with float tolerances scaled by the squared mean",
+ "C17-m13": "a snapshot was never taken right after another snapshot and an in-place re-seed; added, with restoration into a third instance",
+ "C19-m14": "illegal limit arguments met a three-faced histogram only; added one-faced, weighted one-faced, zero-count one-faced, empty and one-die-pool receivers for every illegal limit and for max_depth together with precision_limit",
  "C16-m3": "histograms were built from mappings only; added construction from reversed pairs and from bare outcomes mixed with pairs (stored order not ascending)",
 }
 
